@@ -170,7 +170,7 @@ theorem headerStep_late (st : HState) (l : Bytes) (strip : Int) (hn : ¬ firstBo
        | some r => (parseFileLine r strip).map fun res => ({ st with patch := { p with indexPath := res.1 } }, true)
        | none =>
        match consumeStr (str "Prereq: ") l with
-       | some r => (parseFileLine r 0).map fun res => ({ st with patch := { p with prerequisite := res.1 } }, true)
+       | some r => .ok ({ st with patch := { p with prerequisite := r.takeWhile fun c => c != SP && c != TAB } }, true)
        | none =>
        match consumeStr (str "diff --git ") l with
        | some r =>
@@ -476,13 +476,21 @@ theorem headerStep_git_first (st : HState) (r : Bytes) (strip : Int) (hg : st.is
   rw [headerStep_late _ _ _ (not_firstBodyLine_of_head (by rw [hd]; decide) (by rw [hd]; decide) (by rw [hd]; decide))]
   simp only [h1, h2, h3, h4, h5, ite_self, Unified.consumeStr_append, hg, Bool.false_eq_true, if_false]
 
+/-- (statement changed with the model, D85: the last line of a text that ends in a bare CR is handed out without that CR) -/
 theorem getLine_first (par : Parser) (l : Line) (r : List Line) (heof : par.s.eof = false) (hbad : par.s.bad = false)
-    (hrest : par.s.rest = l :: r) : ∃ l' par1, par.getLine = (some l', par1) ∧ l'.content = l.content := by
+    (hrest : par.s.rest = l :: r) : ∃ l' par1, par.getLine = (some l', par1) ∧
+      (l'.content = l.content ∨ l.content = l'.content ++ [CR]) := by
   unfold Parser.getLine PStream.getLine
   by_cases hn : l.newline = .none
-  · refine ⟨⟨l.content, .lf⟩, { s := { par.s with rest := r, eof := true }, lineNo := par.lineNo + 1 }, ?_, rfl⟩
-    simp [heof, hbad, hrest, hn]
-  · refine ⟨l, { s := { par.s with rest := r }, lineNo := par.lineNo + 1 }, ?_, rfl⟩
+  · by_cases hcr : l.content.getLast? = some CR
+    · refine ⟨⟨l.content.dropLast, .crlf⟩, { s := { par.s with rest := r, eof := true }, lineNo := par.lineNo + 1 }, ?_, Or.inr ?_⟩
+      · simp [heof, hbad, hrest, hn, hcr]
+      · rcases List.eq_nil_or_concat l.content with h0 | ⟨d, b, h0⟩
+        · rw [h0] at hcr; cases hcr
+        · rw [h0] at hcr ⊢; simp at hcr; subst hcr; simp
+    · refine ⟨⟨l.content, .lf⟩, { s := { par.s with rest := r, eof := true }, lineNo := par.lineNo + 1 }, ?_, Or.inl rfl⟩
+      simp [heof, hbad, hrest, hn, hcr]
+  · refine ⟨l, { s := { par.s with rest := r }, lineNo := par.lineNo + 1 }, ?_, Or.inl rfl⟩
     simp [heof, hbad, hrest, hn]
 
 /-- **a section whose first line is a `diff --git` line**: if the header scan succeeds at all (the name on the line may be
@@ -497,8 +505,24 @@ theorem parseHeader_git_first (par : Parser) (pt : Patch) (strip : Int) (l : Lin
   obtain ⟨st, hloop, _, _, _, _, hfmt⟩ := Cost.parseHeader_state par pt strip body p info par' h
   have hgit : st.isGit = true := by
     obtain ⟨l', par1, hgl, hl'⟩ := getLine_first par l rest heof hbad hrest
+    -- the line as it is handed out is a `diff --git` line too (a CR at the very end of the text is taken away, D85)
+    obtain ⟨r, hl'⟩ : ∃ r, l'.content = str "diff --git " ++ r := by
+      rcases hl' with e | e
+      · exact ⟨r, e.trans hl⟩
+      · rw [hl] at e
+        rcases List.eq_nil_or_concat r with h0 | ⟨d, b, h0⟩
+        · subst h0
+          have := congrArg List.getLast? e
+          rw [str_git] at this
+          simp at this
+          exact absurd this (by decide)
+        · subst h0
+          refine ⟨d, ?_⟩
+          have : str "diff --git " ++ d.concat b = (str "diff --git " ++ d) ++ [b] := by simp
+          rw [this] at e
+          exact ((List.append_inj' e rfl).1).symm
     rw [headerLoop, show ({ par := par, patch := pt } : HState).par = par from rfl, hgl] at hloop
-    simp only [hl', hl] at hloop
+    simp only [hl'] at hloop
     rw [headerStep_git_first _ _ _ rfl] at hloop
     cases hn : parseGitHeaderName r strip with
     | error e => rw [hn] at hloop; simp [Except.map] at hloop
@@ -512,11 +536,12 @@ theorem parseHeader_git_first (par : Parser) (pt : Patch) (strip : Int) (l : Lin
 
 /-! ### the `Prereq: ` and `Index: ` lines -/
 
-/-- a `Prereq: ` line (whatever the line before looked like: it starts with `P`): the word is read with a strip count of 0,
-    whatever `-p` says — it is a word to look for in the file, not the name of one -/
+/-- a `Prereq: ` line (whatever the line before looked like: it starts with `P`): the word is what stands there up to the first
+    blank or TAB, whatever `-p` says — it is a word to look for in the file, not the name of one: nothing is stripped and
+    (statement changed with the model, D90; was: `parseFileLine r 0`) nothing is unquoted -/
 theorem headerStep_prereq (st : HState) (r : Bytes) (strip : Int) :
     headerStep st (str "Prereq: " ++ r) strip =
-      (parseFileLine r 0).map fun res => ({ entered st with patch := { st.patch with prerequisite := res.1 } }, true) := by
+      .ok ({ entered st with patch := { st.patch with prerequisite := r.takeWhile fun c => c != SP && c != TAB } }, true) := by
   have hd : (str "Prereq: " ++ r).head? = some 80 := by rw [str_prereq]; rfl
   have h1 : consumeStr (str "*** ") (str "Prereq: " ++ r) = none :=
     consumeStr_none_of_startsWith (startsWith_false_of_head _ _ _ _ str_old4 (by rw [hd]; decide))
